@@ -469,26 +469,26 @@ CONTRACTS[N_ + 'ConnectorDegreeGroupingNode.update_deg@whole-graph'] = dict(
     types={'self': 'Ref[ConnectorDegreeGroupingNode]', 'graph': 'Ref[NxGraph]', 'existing_nodes': 'Optional[Set[Ref]]'},
     locals={'connectors': 'List[Ref[ConnectorNode]]'},
     post_locals=['connectors'],
-    funcs={'COMBINED': (['List[Ref[ConnectorNode]]'], DEG3), 'REPEATED': (['List[Ref[ConnectorNode]]'], 'Bool')},
+    funcs={'COMBINED': (['List[Ref[ConnectorNode]]'], DEG3)},
     defs={'member': (('x',), MEMBER_OF)},
     calls={
         'iter_in_edges': ITER_IN_T,
-        # the two aggregations are functions of the member list (get_repeated_allowed is under contract above;
-        # get_combined_deg -- math.inf, itertools.product -- is bounded only)
+        # the combined degree is a function of the member list (get_combined_deg -- math.inf, itertools.product -- is
+        # bounded only); the repeat flag is checked against the contract of the real get_repeated_allowed (above)
         'self.get_combined_deg': dict(params=['cs'], types={}, returns=DEG3, modifies=[], assumed=True, receiver='self', pure_expr='COMBINED(cs)'),
-        'self.get_repeated_allowed': dict(params=['cs'], types={}, returns='Bool', modifies=[], assumed=True, receiver='self', pure_expr='REPEATED(cs)'),
+        'self.get_repeated_allowed': N_ + 'ConnectorDegreeGroupingNode.get_repeated_allowed',
     },
     loops={'for node in connectors': dict(index='k', invariant={
         'no-earlier-member-had-a-key': 'forall(j, 0, k, not connectors[j].perm_decision_link_key)',
         'link-keys-untouched-so-far': "forall('x:Ref[ConnectorNode]', x.perm_decision_link_key == old(x.perm_decision_link_key))",
-        'aggregate-kept': 'self.deg_list == COMBINED(connectors)[0] and self.deg_min == COMBINED(connectors)[1] and self.deg_max == COMBINED(connectors)[2] and self.repeated_allowed == REPEATED(connectors)',
+        'aggregate-kept': 'self.deg_list == COMBINED(connectors)[0] and self.deg_min == COMBINED(connectors)[1] and self.deg_max == COMBINED(connectors)[2] and self.repeated_allowed == exists(j, 0, len(connectors), connectors[j].repeated_allowed)',
     })},
     ensures={
         # statement of C11: the grouping connector aggregates exactly its members that are present
         'only-present-members-counted': ('property', "forall(j, 0, len(final_connectors), member(final_connectors[j]) and implies(existing_nodes is not None, final_connectors[j] in existing_nodes))"),
         'every-present-member-counted': ('property', "forall('x:Ref', implies(member(x) and implies(existing_nodes is not None, x in existing_nodes), x in final_connectors))"),
         'aggregate-degree-of-exactly-these': ('property', 'self.deg_list == COMBINED(final_connectors)[0] and self.deg_min == COMBINED(final_connectors)[1] and self.deg_max == COMBINED(final_connectors)[2]'),
-        'repeat-flag-of-exactly-these': ('property', 'self.repeated_allowed == REPEATED(final_connectors)'),
+        'repeats-allowed-iff-some-present-member-allows-them': ('property', 'self.repeated_allowed == exists(j, 0, len(final_connectors), final_connectors[j].repeated_allowed)'),
     },
     modifies=['self.deg_list', 'self.deg_min', 'self.deg_max', 'self.repeated_allowed', 'self.perm_decision_link_key'],
 )
@@ -527,7 +527,7 @@ def _domain_update_deg(n):
             edge_set = es
         env = {'self': grp, 'graph': G, 'existing_nodes': None, 'EdgeType': EdgeType,
                'COMBINED': (lambda cs: tuple(ConnectorDegreeGroupingNode.get_combined_deg(list(cs)))),
-               'REPEATED': (lambda cs: ConnectorDegreeGroupingNode.get_repeated_allowed(list(cs)))}
+               }
 
         def call(grp=grp, g=g):
             from pyvc.replay import SegmentResult
